@@ -2,6 +2,7 @@
 package c13
 
 import (
+	"fmt"
 	"os"
 	"strings"
 	"testing"
@@ -417,3 +418,98 @@ func FuzzGlob(f *testing.F) {
 		prop.One(t, Case{Pat: pat, Str: s})
 	})
 }
+
+// ---------- histories: statements kept while others are built ----------
+
+type HistCase struct {
+	Pairs []Case `json:"pairs"` // every pattern is BUILT first (in this order), then every statement is evaluated
+	Order []int  `json:"order"` // evaluation order (indexes into Pairs, repetitions allowed)
+	// Between: a pattern built between two evaluations (index into Pairs, the statement is thrown away)
+	Between []int `json:"between,omitempty"`
+}
+
+// runHist: a like statement is a value; what it matches is fixed when it is built. Several statements are built
+// (through the constructor and through FromIPLD), more are built while the first ones are still in use, and each is
+// then evaluated - possibly several times - against its subject. Every evaluation must give the glob language's
+// answer for ITS pattern, whatever was built or matched in between.
+func runHist(c *h.Ctx, hc HistCase) {
+	type built struct {
+		cs   Case
+		p    []policy.Policy
+		want bool
+	}
+	var bs []built
+	for _, cs := range hc.Pairs {
+		want, valid := pol.Glob(cs.Pat, cs.Str)
+		if !valid {
+			if _, err := policy.Construct(policy.Like(".", cs.Pat)); err == nil {
+				c.Fail("C13/pattern/lone-backslash-accepted", "Like(%q) accepted although the pattern ends in a lone backslash", cs.Pat)
+			}
+			continue
+		}
+		b := built{cs: cs, want: want}
+		for _, viaIPLD := range []bool{false, true} {
+			p, err := pol.Policy{{Op: "like", Sel: nil, Pat: cs.Pat}}.Build(viaIPLD)
+			if err != nil {
+				c.Fail("C13/pattern/valid-rejected", "like %q rejected (via IPLD: %v): %v", cs.Pat, viaIPLD, err)
+				return
+			}
+			b.p = append(b.p, p)
+		}
+		bs = append(bs, b)
+	}
+	if len(bs) == 0 {
+		return
+	}
+	escapes := 0
+	for _, b := range bs {
+		if strings.Contains(b.cs.Pat, `\`) {
+			escapes++
+		}
+	}
+	for k, i := range hc.Order {
+		b := bs[i%len(bs)]
+		if len(hc.Between) > 0 {
+			o := bs[hc.Between[k%len(hc.Between)]%len(bs)]
+			_, _ = pol.Policy{{Op: "like", Sel: nil, Pat: o.cs.Pat}}.Build(k%2 == 0)
+		}
+		for v, p := range b.p {
+			got, _ := p.Match(basicnode.NewString(b.cs.Str))
+			if got != b.want {
+				c.Fail("C13/history/"+map[bool]string{true: "false-positive", false: "false-negative"}[got],
+					"like %q on %q (statement %d of %d built in this history, variant %d, evaluation %d): got %v, the glob language says %v; on its own the same statement is right - other statements built in between: %d",
+					b.cs.Pat, b.cs.Str, i%len(bs), len(bs), v, k, got, b.want, len(bs)-1)
+			}
+		}
+	}
+	c.P.Class(fmt.Sprintf("history:statements=%d,with-escape=%d", min(len(bs), 6), min(escapes, 4)))
+	if len(bs) >= 2 && escapes >= 2 {
+		var key []string
+		for _, b := range bs {
+			key = append(key, b.cs.Pat, b.cs.Str)
+		}
+		c.P.NonTrivial(key, map[string]any{"kind": "history", "statements": len(bs), "with_escape": escapes, "first_pattern": bs[0].cs.Pat})
+	}
+}
+
+var histProp = h.Define(P, "history", func(t *rapid.T) HistCase {
+	var hc HistCase
+	n := rapid.IntRange(2, 6).Draw(t, "npairs")
+	for i := 0; i < n; i++ {
+		var cs Case
+		cs.Pat = drawStr(t, "hpat")
+		if rapid.IntRange(0, 3).Draw(t, "hinst") > 0 {
+			cs.Str = instance(t, cs.Pat)
+		} else {
+			cs.Str = drawStr(t, "hstr")
+		}
+		hc.Pairs = append(hc.Pairs, cs)
+	}
+	hc.Order = rapid.SliceOfN(rapid.IntRange(0, n-1), 1, 8).Draw(t, "order")
+	if rapid.Bool().Draw(t, "hbetween") {
+		hc.Between = rapid.SliceOfN(rapid.IntRange(0, n-1), 1, 4).Draw(t, "between")
+	}
+	return hc
+}, runHist)
+
+func TestGlobHistory(t *testing.T) { histProp.Check(t) }
